@@ -64,6 +64,7 @@ type Run struct {
 
 	progress     *os.File
 	stoppedEarly bool
+	hangs        int
 	casesRun     int64
 
 	quiet     bool
@@ -327,6 +328,9 @@ func (r *Run) Violation(caseID, kind string, detail any) {
 	}
 	r.violationIDs[caseID+"|"+kind] = true
 	r.violations++
+	if strings.Contains(kind, "hang") || strings.Contains(kind, "never-finishes") || strings.Contains(kind, "does-not-return") {
+		r.hangs++
+	}
 	n := r.violations
 	if r.quiet {
 		r.collected = append(r.collected, map[string]any{"case_id": caseID, "kind": kind, "detail": detail})
@@ -371,10 +375,11 @@ var MaxViolations = 60
 func (r *Run) enough() bool {
 	r.mu.Lock()
 	defer r.mu.Unlock()
-	if r.violations >= MaxViolations && !r.quiet {
+	// three calls that never returned are enough: every further one costs a whole watchdog period
+	if (r.violations >= MaxViolations || r.hangs >= 3) && !r.quiet {
 		if !r.stoppedEarly {
 			r.stoppedEarly = true
-			r.extra["stopped_early"] = fmt.Sprintf("remaining cases skipped after %d violations", r.violations)
+			r.extra["stopped_early"] = fmt.Sprintf("remaining cases skipped after %d violations (%d of them calls that did not return)", r.violations, r.hangs)
 		}
 		return true
 	}
